@@ -58,6 +58,7 @@ type shadow struct {
 	subjects map[int][]int  // repo -> manifest indexes named as subject by something pushed there
 	writers  map[int]bool
 	pending  map[int]bool // slot has a deliberately wrong resume offset outstanding
+	closed   map[int]bool // the slot's writer was closed: it must be resumed before further use
 	nvalid   int
 }
 
@@ -185,7 +186,7 @@ func Gen(cfg Config) func(t *rapid.T) Script {
 		}
 
 		// ---- operations
-		sh := &shadow{blobs: map[[2]int]int{}, mans: map[[2]int]int{}, tags: map[[2]int]int{}, tagMan: map[[2]int]int{}, subjects: map[int][]int{}, writers: map[int]bool{}, pending: map[int]bool{}, nvalid: nv}
+		sh := &shadow{blobs: map[[2]int]int{}, mans: map[[2]int]int{}, tags: map[[2]int]int{}, tagMan: map[[2]int]int{}, subjects: map[int][]int{}, writers: map[int]bool{}, pending: map[int]bool{}, closed: map[int]bool{}, nvalid: nv}
 		nrepo, ntag := len(s.U.Repos), len(s.U.Tags)
 		type kindW struct {
 			k string
@@ -254,6 +255,9 @@ func Gen(cfg Config) func(t *rapid.T) Script {
 				switch {
 				case !sh.writers[op.W]:
 					op.K = "upStart"
+				case sh.closed[op.W]:
+					// a closed writer is not used again (that is undefined for an io.Closer): resume it
+					op.K = "upResume"
 				case sh.pending[op.W]:
 					op.K = "upWrite"
 					sh.pending[op.W] = false
@@ -347,6 +351,7 @@ func Gen(cfg Config) func(t *rapid.T) Script {
 					op.M = pickState(t, sh.mans, op.R, nm, "man")
 				}
 			case "upStart":
+				sh.closed[op.W] = false
 				op.N = rapid.SampledFrom([]int{0, 0, -1, 1, 100, 8192, 20000}).Draw(t, "chunkHint")
 				sh.writers[op.W] = true
 			case "upWrite":
@@ -355,6 +360,7 @@ func Gen(cfg Config) func(t *rapid.T) Script {
 					op.N = rapid.IntRange(1, 9).Draw(t, "prefix")
 				}
 			case "upResume":
+				sh.closed[op.W] = false
 				op.Mode = rapid.SampledFrom([]int{0, 0, 0, 1, 1, 2}).Draw(t, "resumeMode")
 				if op.Mode == 2 && cfg.NoWrongOffset {
 					op.Mode = 0
@@ -367,7 +373,11 @@ func Gen(cfg Config) func(t *rapid.T) Script {
 					op.N = rapid.SampledFrom([]int{-1, 1, 2, 100}).Draw(t, "offsetDelta")
 					sh.pending[op.W] = true
 				}
+			case "upClose":
+				sh.closed[op.W] = true
+			case "upStart2":
 			case "upCommit":
+				sh.closed[op.W] = false
 				sh.writers[op.W] = cfg.KeepCommitted && rapid.Bool().Draw(t, "keepAfterCommit")
 				if cfg.Mismatch && rapid.IntRange(0, 5).Draw(t, "wrongDigest") == 0 {
 					op.Mode = 1
